@@ -1212,6 +1212,8 @@ mzd_t *_mzd_mul_naive(mzd_t *C, mzd_t const *A, mzd_t const *B, const int clear)
   word parity[64];
   for (int i = 0; i < 64; ++i) { parity[i] = 0; }
   wi_t const wide     = A->width;
+  /* A and B may be windows: the bits beyond their last column belong to the parents */
+  word const mask_ab  = A->high_bitmask;
   int const blocksize = __M4RI_MUL_BLOCKSIZE;
   for (rci_t start = 0; start + blocksize <= C->nrows; start += blocksize) {
     for (rci_t i = start; i < start + blocksize; ++i) {
@@ -1220,8 +1222,8 @@ mzd_t *_mzd_mul_naive(mzd_t *C, mzd_t const *A, mzd_t const *B, const int clear)
       for (rci_t j = 0; j < m4ri_radix * eol; j += m4ri_radix) {
         for (int k = 0; k < m4ri_radix; ++k) {
           word const *b = mzd_row_const(B, j + k);
-          parity[k] = a[0] & b[0];
-          for (wi_t ii = wide - 1; ii >= 1; --ii) parity[k] ^= a[ii] & b[ii];
+          parity[k] = a[wide - 1] & b[wide - 1] & mask_ab;
+          for (wi_t ii = wide - 2; ii >= 0; --ii) parity[k] ^= a[ii] & b[ii];
         }
         c[j / m4ri_radix] ^= m4ri_parity64(parity);
       }
@@ -1233,8 +1235,8 @@ mzd_t *_mzd_mul_naive(mzd_t *C, mzd_t const *A, mzd_t const *B, const int clear)
          */
         for (int k = 0; k < (C->ncols % m4ri_radix); ++k) {
           word const *b = mzd_row_const(B, m4ri_radix * eol + k);
-          parity[k] = a[0] & b[0];
-          for (wi_t ii = 1; ii < A->width; ++ii) parity[k] ^= a[ii] & b[ii];
+          parity[k] = a[wide - 1] & b[wide - 1] & mask_ab;
+          for (wi_t ii = 0; ii < wide - 1; ++ii) parity[k] ^= a[ii] & b[ii];
         }
         c[eol] ^= m4ri_parity64(parity) & mask_end;
       }
@@ -1247,8 +1249,8 @@ mzd_t *_mzd_mul_naive(mzd_t *C, mzd_t const *A, mzd_t const *B, const int clear)
     for (rci_t j = 0; j < m4ri_radix * eol; j += m4ri_radix) {
       for (int k = 0; k < m4ri_radix; ++k) {
         word const *b = mzd_row_const(B, j + k);
-        parity[k] = a[0] & b[0];
-        for (wi_t ii = wide - 1; ii >= 1; --ii) parity[k] ^= a[ii] & b[ii];
+        parity[k] = a[wide - 1] & b[wide - 1] & mask_ab;
+        for (wi_t ii = wide - 2; ii >= 0; --ii) parity[k] ^= a[ii] & b[ii];
       }
       c[j / m4ri_radix] ^= m4ri_parity64(parity);
     }
@@ -1259,8 +1261,8 @@ mzd_t *_mzd_mul_naive(mzd_t *C, mzd_t const *A, mzd_t const *B, const int clear)
       /* asm __volatile__ (".p2align 4\n\tnop\n\tnop\n\tnop\n\tnop\n\tnop\n\tnop\n\tnop\n\tnop"); */
       for (int k = 0; k < (C->ncols % m4ri_radix); ++k) {
         word const *b = mzd_row_const(B, m4ri_radix * eol + k);
-        parity[k] = a[0] & b[0];
-        for (wi_t ii = 1; ii < A->width; ++ii) parity[k] ^= a[ii] & b[ii];
+        parity[k] = a[wide - 1] & b[wide - 1] & mask_ab;
+        for (wi_t ii = 0; ii < wide - 1; ++ii) parity[k] ^= a[ii] & b[ii];
       }
       c[eol] ^= m4ri_parity64(parity) & mask_end;
     }
